@@ -84,6 +84,66 @@ theorem pending_exactly_inner (s : Svc) (req w n : Nat) (hn : pendOf s req < n) 
     (run n s req w).2.2 = w + pendOf s req := by
   rw [run_eq n s req w hn]
 
+/-- the same for the factory futures (`and_then` join, `apply(Transform)` A/B, `apply_cfg_factory`
+A/B/C, `map*`, boxed): one poll answers Pending only if an inner init future or — in state B of
+`apply_cfg_factory` — an inner service answered Pending *to the current waker* in this very poll.
+The scripted leaves park the waker exactly then, so a Pending factory future always has a wake-up
+arranged on the waker of its latest poll (a wake-driven executor never stalls) -/
+theorem fac_pending_only_if_inner_pending (fu : IFut) (w : Nat) (h : (ipoll fu w).2.1 = none) :
+    ∃ e ∈ (ipoll fu w).2.2, isPendingFor w e = true :=
+  (ipoll_obs fu w).1 (by simp [h])
+
+/-- … and every inner poll (init futures and `poll_ready` of the created service) carries the
+current waker -/
+theorem fac_poll_passes_current_waker (fu : IFut) (w : Nat) :
+    ∀ e ∈ (ipoll fu w).2.2, evtWaker e = none ∨ evtWaker e = some w :=
+  (ipoll_obs fu w).2
+
+/-- a Pending `poll_ready` of a combined service is backed by a leaf that answered Pending to the
+current waker -/
+theorem ready_pending_arranges_wakeup (s : Svc) (w : Nat) (h : (pollReady s w).2.1 = .pending) :
+    ∃ e ∈ (pollReady s w).2.2, isPendingFor w e = true :=
+  (pollReady_wake s w).1 (by simp [h])
+
+/-- the readiness gate of `apply_cfg_factory` (apply_cfg.rs state B), one poll: a readiness error of
+the created service is the result and the configure closure is not invoked; on Pending the future
+stays pending and the closure is not invoked; the closure is invoked in the poll in which the
+service answers `Ready(Ok)` -/
+theorem cfg_gate (svc : Svc) (f ip : Nat) (iok : Bool) (cfg w : Nat) :
+    (∀ e, (pollReady svc w).2.1 = .err e →
+        (ipoll (.cfgB svc f ip iok cfg) w).2.1 = some (.err e) ∧
+        ∀ ev ∈ (ipoll (.cfgB svc f ip iok cfg) w).2.2, isCfgFn ev = false) ∧
+    ((pollReady svc w).2.1 = .pending →
+        (ipoll (.cfgB svc f ip iok cfg) w).2.1 = none ∧
+        ∀ ev ∈ (ipoll (.cfgB svc f ip iok cfg) w).2.2, isCfgFn ev = false) ∧
+    ((pollReady svc w).2.1 = .ok → Evt.cfgFn f cfg ∈ (ipoll (.cfgB svc f ip iok cfg) w).2.2) := by
+  simp only [ipoll]; exact cfgBStep_gate svc f ip iok cfg w
+
+/-- whole run of `apply_cfg_factory(a, f)`: if the service built by `a` ends its readiness script
+in `Ready(Err e)` (after any number of Pendings), `new_service` resolves to `Err e` — the inner
+readiness error is reported instead of a configured service — in the poll in which the error shows -/
+theorem fac_ready_error_is_init_error (a : Fac) (f ip : Nat) (iok : Bool) (cfg w n p : Nat) (s : Svc) (e : Nat)
+    (ha : facDen a 0 = (p, .ok s)) (hr : (rdyDen s).2 = .err e) (hn : p + (rdyDen s).1 < n) :
+    (facRun n (.applyCfgFac a f ip iok) cfg w).1 = some (.err e) ∧
+    (facRun n (.applyCfgFac a f ip iok) cfg w).2.2 = w + (p + (rdyDen s).1) := by
+  have hd : facDen (.applyCfgFac a f ip iok) cfg = (p + (rdyDen s).1, .err e) := by
+    simp [facDen, ha, cfgDen, hr]
+  have h := fac_drive (.applyCfgFac a f ip iok) cfg w n (by rw [hd]; exact hn)
+  rw [hd] at h
+  exact ⟨h.1, h.2.1⟩
+
+/-- … and if it ends in `Ready(Ok)` the closure's service is built over the *settled* (ready)
+service, after the readiness Pendings and the closure's own -/
+theorem fac_configures_ready_service (a : Fac) (f ip : Nat) (iok : Bool) (cfg w n p : Nat) (s : Svc)
+    (ha : facDen a 0 = (p, .ok s)) (hr : (rdyDen s).2 = .ok) (hn : p + ((rdyDen s).1 + ip) < n) :
+    (facRun n (.applyCfgFac a f ip iok) cfg w).1 = some (cfgRes (settle s) f iok cfg) ∧
+    (facRun n (.applyCfgFac a f ip iok) cfg w).2.2 = w + (p + ((rdyDen s).1 + ip)) := by
+  have hd : facDen (.applyCfgFac a f ip iok) cfg = (p + ((rdyDen s).1 + ip), cfgRes (settle s) f iok cfg) := by
+    simp [facDen, ha, cfgDen, hr]
+  have h := fac_drive (.applyCfgFac a f ip iok) cfg w n (by rw [hd]; exact hn)
+  rw [hd] at h
+  exact ⟨h.1, h.2.1⟩
+
 /-! ## Non-vacuity -/
 
 def exSvc : Svc :=
@@ -98,5 +158,23 @@ example : curErr (.mapErr (.leaf 2 0 true 0 false) 22) = some (mapFn 22 7002) :=
 example : ∀ st ∈ leafSteps (.andThen (.leaf 0 1 true 0 true) (.fnSvc 11 true)), st = .ok := by decide
 example : pendOf exSvc 3 < 5 := by decide
 example : (stageIds exSvc).count 1 = 1 := by decide
+
+/-- `apply_cfg_factory` over a leaf whose readiness script is Pending, Ready(Err) -/
+def exGate : Fac := .applyCfgFac (.leaf 60 1 true true (.mapErr (.leaf 0 0 true 1 false) 22)) 52 1 true
+example : facDen (.leaf 60 1 true true (.mapErr (.leaf 0 0 true 1 false) 22)) 0
+    = (1, .ok (.mapErr (.leaf 0 0 true 1 false) 22)) := by decide
+example : rdyDen (.mapErr (.leaf 0 0 true 1 false) 22) = (1, .err (mapFn 22 7000)) := by decide
+example : (facRun 10 exGate 5 0).1 = some (.err (mapFn 22 7000)) ∧ (facRun 10 exGate 5 0).2.2 = 0 + (1 + 1) :=
+  fac_ready_error_is_init_error (.leaf 60 1 true true (.mapErr (.leaf 0 0 true 1 false) 22)) 52 1 true 5 0 10 1
+    (.mapErr (.leaf 0 0 true 1 false) 22) (mapFn 22 7000) (by decide) (by decide) (by decide)
+example : (pollReady (.leaf 0 0 true 0 false) 3).2.1 = .err 7000 := by decide
+example : (ipoll (.cfgB (.leaf 0 0 true 0 false) 52 0 true 5) 3).2.1 = some (.err 7000) :=
+  ((cfg_gate (.leaf 0 0 true 0 false) 52 0 true 5 3).1 7000 (by decide)).1
+example : (ipoll (.cfgB (.leaf 0 0 true 1 true) 52 0 true 5) 3).2.1 = none := by decide
+example : ∃ e ∈ (ipoll (.cfgB (.leaf 0 0 true 1 true) 52 0 true 5) 3).2.2, isPendingFor 3 e = true :=
+  fac_pending_only_if_inner_pending _ 3 (by decide)
+example : (ipoll (newService (.transform 31 1 true none (.leaf 60 0 true true (.fnSvc 11 true))) 4).1 9).2.1 = none := by
+  decide
+example : rdyDen (.andThen (.leaf 0 0 true 2 true) (.fnSvc 11 true)) = (2, .ok) := by decide
 
 end ActixNet.C12
